@@ -3,8 +3,9 @@
 Bounded-exhaustive product (engine E1) over the real ``passlib.totp.TOTP``:
 
 * part ``strings``: label x issuer = EVERY string of length <= 2 (thorough: <= 3 on one side, <= 2 on the other)
-  over the hostile alphabet  a Z blank @ / % & = + ? # ; ' " < e-acute CJK  (no leading / trailing blank: the KeyURI
-  reader may strip it), issuer also absent, x formats {uri, uri with label/issuer passed to to_uri(), json, dict}.
+  over the hostile alphabet  a Z blank @ / % & = + ? # ; ' " < e-acute CJK  (a LABEL with a leading / trailing blank
+  only through json / dict: the KeyURI reader strips blanks around the label, as documented; an ISSUER keeps its
+  blanks in every format), issuer also absent, x formats {uri, uri with label/issuer passed to to_uri(), json, dict}.
 * part ``configs``: keys x algs x digits 6..10 x periods x class defaults set through ``TOTP.using(...)``
   (none / digits / alg / period / issuer / all four) x formats x a few hostile labels and issuers, so that the
   default-elision rules are exercised on the writing AND on the reading side.
@@ -92,8 +93,6 @@ def strings(maxlen):
                 out.append(prefix)
                 return
             for ch in ALPHABET:
-                if ch == " " and (not prefix or len(prefix) == n - 1):
-                    continue
                 rec(prefix + ch)
         rec("")
     return out
@@ -651,6 +650,8 @@ def work(task):
                 for fmt in FORMATS:
                     if label is None and fmt.startswith("uri"):
                         continue  # a URI needs a label (documented)
+                    if label is not None and label != label.strip(" ") and fmt.startswith("uri"):
+                        continue  # the KeyURI reader strips blanks around the LABEL (documented); issuers keep theirs
                     case = {"kind": "roundtrip", "factory": facname, "key": key, "alg": "sha1", "digits": 6, "period": 30,
                             "label": label, "issuer": issuer, "format": fmt}
                     acc.ev()
